@@ -75,6 +75,13 @@ public:
       if (prev)
       {
         auto delta = prev->Diff(*aggr);
+        // The same attribute set may be observed more than once before the next Collect (e.g. a
+        // callback registered twice): keep what is already pending for it.
+        auto pending = delta_hash_map_->Get(measurement.first);
+        if (pending)
+        {
+          delta = pending->Merge(*delta);
+        }
         // store received value in cumulative map, and the diff in delta map (to pass it to temporal
         // storage)
         cumulative_hash_map_->Set(measurement.first, std::move(aggr));
